@@ -282,7 +282,8 @@ def rule_e(ctx, ix):
     ctx.describe(R, 'index roles of the dependence table: parameters are used in the role their callers pass, results in the role '
                     'their callers need; the inverse direction does not read the forward table as if it were its own', floor=12)
     mod = ix.module(HELPERS)
-    funcs = {n.name: n for n in mod.tree.body if isinstance(n, ast.FunctionDef)}
+    from ..index import fold_return_temps
+    funcs = {n.name: fold_return_temps(n) for n in mod.tree.body if isinstance(n, ast.FunctionDef)}
     for need in ('pixel2world_single_axis', 'world2pixel_single_axis', 'dependent_axes'):
         if need not in funcs:
             raise AnalysisError('%s.%s vanished' % (HELPERS, need))
